@@ -79,12 +79,26 @@ fn second_ok(out: &[u8], want: &[(u64, u64)]) -> Result<(), Violation> {
 
 struct Pairs {
     vals: Vec<u64>,
+    /// second component's values (None: the same list)
+    other: Option<Vec<u64>>,
+    label: &'static str,
 }
 impl Pairs {
     fn case(&self, idx: u64) -> (u64, u64, usize, bool) {
         let n = self.vals.len() as u64;
-        let d = digits(idx, &[n, n, 4, 2]);
-        (self.vals[d[0] as usize], self.vals[d[1] as usize], d[2] as usize, d[3] == 1)
+        match &self.other {
+            None => {
+                let d = digits(idx, &[n, n, 4, 2]);
+                (self.vals[d[0] as usize], self.vals[d[1] as usize], d[2] as usize, d[3] == 1)
+            }
+            Some(o) => {
+                // dense range for one component, a few values for the other, both ways round
+                let d = digits(idx, &[n, o.len() as u64, 2, 4, 2]);
+                let (a, b) = (self.vals[d[0] as usize], o[d[1] as usize]);
+                let (r, i) = if d[2] == 0 { (a, b) } else { (b, a) };
+                (r, i, d[3] as usize, d[4] == 1)
+            }
+        }
     }
 }
 impl Family for Pairs {
@@ -92,11 +106,14 @@ impl Family for Pairs {
         crate::engine::rot(idx)
     }
     fn name(&self) -> String {
-        "count-pairs".into()
+        self.label.into()
     }
     fn len(&self) -> u64 {
         let n = self.vals.len() as u64;
-        n * n * 8
+        match &self.other {
+            None => n * n * 8,
+            Some(o) => n * o.len() as u64 * 16,
+        }
     }
     fn run(&self, idx: u64, st: &mut Stats) -> Result<(), Violation> {
         let (r, i, ctx, bin) = self.case(idx);
@@ -215,20 +232,30 @@ impl Family for ZeroCols {
 }
 
 pub fn build(quick: bool) -> Check {
-    let _ = quick;
     let vals = lattice();
+    // every value of one component in a dense range (all of the 1- and 3-byte classes' small end,
+    // thorough: through 2^16 and a window at 2^24) against a few values of the other
+    let mut dense: Vec<u64> = (0..=(if quick { 1100u64 } else { 70_000 })).collect();
+    if !quick {
+        dense.extend((1u64 << 24) - 300..=(1u64 << 24) + 300);
+    }
+    let few = vec![0u64, 7, 251, 65536, 1 << 24, u64::MAX];
     let mut counts: Vec<u64> = (0..=300).collect();
     counts.extend([65535u64, 65536, 70000]);
     let nv = vals.len();
     Check {
         id: "C14",
         level: "model_checking",
-        rule: format!("(rows, last_insert_id) over a lattice of {} values per component (0, 1, 250..256, 2^16, 2^24, 2^32, 2^63, 2^64-1, every 2^k and 2^k +- 1) squared x 4 contexts (completed; complete_one first/middle; completed after complete_one) x text/binary; zero-column resultsets with every row count 0..300 and 65535, 65536, 70000 via end_row, write_row, ignored write_col, and as the second of two zero-column sets. Oracle: refwire's length-encoded-integer decoding of the OK packet, and mysql_common's OkPacket. Non-trivial = a component beyond the one-byte class.", nv),
+        rule: format!("(rows, last_insert_id) over a lattice of {} values per component (0, 1, 250..256, 2^16, 2^24, 2^32, 2^63, 2^64-1, every 2^k and 2^k +- 1) squared x 4 contexts (completed; complete_one first/middle; completed after complete_one) x text/binary; every value 0..1100 (thorough: 0..70000 and 2^24+-300) of one component against 0, 7, 251, 65536, 2^24, 2^64-1 of the other, both ways round; zero-column resultsets with every row count 0..300 and 65535, 65536, 70000 via end_row, write_row, ignored write_col, and as the second of two zero-column sets. Oracle: refwire's length-encoded-integer decoding of the OK packet, and mysql_common's OkPacket. Non-trivial = a component beyond the one-byte class.", nv),
         assumptions: vec!["64-bit components are covered at the boundary lattice, not exhaustively".into()],
         bounds: json!({"lattice": nv, "zero_column_max_exhaustive": 300}),
         exhaustive: true,
         caps_hit: vec![],
-        families: vec![Box::new(Pairs { vals }), Box::new(ZeroCols { counts })],
+        families: vec![
+            Box::new(Pairs { vals, other: None, label: "count-pairs" }),
+            Box::new(Pairs { vals: dense, other: Some(few), label: "dense-range-x-few" }),
+            Box::new(ZeroCols { counts }),
+        ],
         required: vec!["eight_byte_lenenc", "zero_column_sets"],
     }
 }
